@@ -149,6 +149,12 @@ class PolyFacet:
         f = opaque or (lambda n: False)
         self.opaque = (lambda n: n.id in ids or f(n))   # rule hook: treat node as atom
         self.gather_transparent = gather_transparent
+        self.mask_nodes: Dict[int, Node] = {}
+
+    def zw(self, mask: Node):
+        v = self.g.vn(mask)
+        self.mask_nodes.setdefault(v, mask)
+        return ("zero-where", v)
 
     # ------------------------------------------------------------------ atoms
     def atom(self, key: tuple, **info) -> int:
@@ -363,12 +369,21 @@ class PolyFacet:
             zv = self.of(val).rat.is_const() if n.attr is None else None
             if n.attr is None and zv == 0:
                 b = self.of(base)
-                return Val(b.rat, b.zc | frozenset([("zero-where", self.g.vn(idx))]))
+                return Val(b.rat, b.zc | frozenset([self.zw(idx)]))
             return self.node_atom(n)
         if op == "Phi":
             a, b = self.of(n.args[1]), self.of(n.args[2])
             if self.equal(a, b):
                 return a
+            if self.equal(Val(a.rat), Val(b.rat)):
+                # same polynomial, zeroed differently on the two branches
+                c = n.args[0]
+                cv = self.g.vn(c)
+                self.mask_nodes.setdefault(cv, c)
+                common = a.zc & b.zc
+                extra = {("cond", cv, True, it) for it in (a.zc - b.zc)} | \
+                        {("cond", cv, False, it) for it in (b.zc - a.zc)}
+                return Val(a.rat, common | frozenset(extra))
             return self.node_atom(n)
         if op == "Call" and n.args[0].op == "Ext":
             q = n.args[0].attr
@@ -392,11 +407,11 @@ class PolyFacet:
                 if z == 0:
                     a = self.of(args[1])
                     neg = self.I.mk("UnaryOp", (args[0],), "Invert", n.site)
-                    return Val(a.rat, a.zc | frozenset([("zero-where", self.g.vn(neg))]))
+                    return Val(a.rat, a.zc | frozenset([self.zw(neg)]))
                 y = self.of(args[1]).rat.is_const()
                 if y == 0:
                     a = self.of(args[2])
-                    return Val(a.rat, a.zc | frozenset([("zero-where", self.g.vn(args[0]))]))
+                    return Val(a.rat, a.zc | frozenset([self.zw(args[0])]))
                 return self.node_atom(n)
             short = q.split(".")[-1]
             if (q.startswith("numpy.") or q.startswith("math.")) and short in FN_NAMES:
